@@ -13,8 +13,9 @@ what decoding rebuilds, what a successful load guarantees).
        holds under that normalisation (`assignNeighbors_unique_literal`).
  * §4  `decode_encode_eq` (exact value of `decode (encode K)`), `decode_encode` (the requested
        list of kept data), `decode_encode_eraseInc` (literal round trip modulo incident pointers).
- * §5  `decode_ok_guarantees` + `decode_accepts_incoherent` (known gap F7b).
- * §6  `decode_rejects_*`: concrete rejected documents.
+ * §5  `decode_ok_guarantees` (Level 1, no over-shared facet, known vertices, no duplicate cell)
+       + `decode_accepts_incoherent` (known gap F7b).
+ * §6  `decode_rejects_*`: concrete rejected documents (incl. `decode_rejects_duplicate_cell`).
 
 Helper lemmas live in Lemmas/SerdeAux.lean.  Everything here is core-only.
 -/
@@ -218,7 +219,7 @@ theorem decode_encode_eq (K : Cx) (h1 : checkL1 K = true) (h2 : checkL2 K = true
         verts := assignIncident (K.verts.map (fun v => (v.id, v.pt))) (K.cells.map (reCell K))
         cells := K.cells.map (reCell K) } := by
   obtain ⟨hverts, hcells⟩ := (C05.checkL1_iff K).1 h1
-  obtain ⟨⟨_, hnd⟩, hex, _, _, hle, _, _⟩ := (C05.checkL2_iff K).1 h2
+  obtain ⟨⟨_, hnd⟩, hex, _, hdup, hle, _, _⟩ := (C05.checkL2_iff K).1 h2
   have hb : builtCx (encode K) (idVs K.cells) =
       { D := K.D
         verts := assignIncident (K.verts.map (fun v => (v.id, v.pt))) (K.cells.map (reCell K))
@@ -227,7 +228,7 @@ theorem decode_encode_eq (K : Cx) (h1 : checkL1 K = true) (h2 : checkL2 K = true
     rw [rawCells_map_reCell]
     rfl
   rw [← hb, decode_eq_some_iff]
-  refine ⟨idVs K.cells, tableRows_encode K hnd, ?_, ?_, ?_, rfl⟩
+  refine ⟨idVs K.cells, tableRows_encode K hnd, ?_, ?_, ?_, ?_, rfl⟩
   · -- every listed vertex uuid is stored
     unfold rowsKnown idVs
     simp only [List.all_eq_true, List.mem_map, List.any_eq_true, beq_iff_eq]
@@ -256,6 +257,10 @@ theorem decode_encode_eq (K : Cx) (h1 : checkL1 K = true) (h2 : checkL2 K = true
       refine ⟨hlen, hndv, fun l hl => ?_⟩
       rw [reCell_nb_length K c l hl]
       exact hlen
+  · -- no duplicate cell in the rebuilt complex: `noDupCells` only sees the vertex slots
+    have : idVs (builtCx (encode K) (idVs K.cells)).cells = idVs K.cells := idVs_builtCx _ _
+    rw [noDupCells_congr this, C05.noDupCells_iff]
+    exact hdup
 
 /-- **Round trip (requested form).**  For `K` valid at Levels 1 and 2, `decode (encode K)` is some
 `K'` with the same dimension, the same vertex uuids and coordinates in the same order, the same
@@ -297,13 +302,15 @@ theorem decode_encode_eraseInc (K : Cx) (h1 : checkL1 K = true) (h2 : checkL2 K 
 /-! ## §5 what a successful load guarantees — and what it does not -/
 
 /-- whatever the document: a successful `decode` returns a complex that passes Level 1, has no
-facet shared by more than two cells, and whose cells only name stored vertices -/
+facet shared by more than two cells, whose cells only name stored vertices, and in which no two
+cells have the same vertex set (fix F7c) -/
 theorem decode_ok_guarantees (doc : Doc) (K : Cx) (h : decode doc = some K) :
     checkL1 K = true ∧
     (∀ f ∈ allFacets K, facetDeg K f.1 ≤ 2) ∧
-    (∀ c ∈ K.cells, ∀ v ∈ c.vs, ∃ x ∈ K.verts, x.id = v) := by
-  obtain ⟨cvs, _, hknown, hle, hl1, rfl⟩ := (decode_eq_some_iff doc K).1 h
-  refine ⟨hl1, ?_, ?_⟩
+    (∀ c ∈ K.cells, ∀ v ∈ c.vs, ∃ x ∈ K.verts, x.id = v) ∧
+    noDupCells K = true := by
+  obtain ⟨cvs, _, hknown, hle, hl1, hdup, rfl⟩ := (decode_eq_some_iff doc K).1 h
+  refine ⟨hl1, ?_, ?_, hdup⟩
   · have : idVs (builtCx doc cvs).cells = idVs (rawCx doc.D cvs).cells := by
       rw [idVs_builtCx]
       exact (idVs_rawCells cvs).symm
@@ -329,7 +336,7 @@ vertices exactly the document's -/
 theorem decode_ok_content (doc : Doc) (K : Cx) (h : decode doc = some K) :
     K.D = doc.D ∧ K.verts.map (fun v => (v.id, v.pt)) = doc.verts ∧
     K.cells.map (·.id) = doc.cells ∧ assignNeighbors K = some K.cells := by
-  obtain ⟨cvs, hrows, _, hle, _, rfl⟩ := (decode_eq_some_iff doc K).1 h
+  obtain ⟨cvs, hrows, _, hle, _, _, rfl⟩ := (decode_eq_some_iff doc K).1 h
   refine ⟨rfl, assignIncident_idpt _ _, ?_, ?_⟩
   · have e := idVs_builtCx doc cvs
     have : (builtCx doc cvs).cells.map (·.id) = (idVs (builtCx doc cvs).cells).map (·.1) := by
@@ -409,6 +416,39 @@ theorem decode_rejects_overshared_facet :
     (decode { D := 2, verts := sqVerts ++ [(4, ipt 2 2)], cells := [0, 1, 2],
               table := [(0, [0, 1, 2]), (1, [0, 1, 3]), (2, [0, 1, 4])] }).isNone = true := by
   decide
+
+/-- five stored vertices: the unit square and `(2, 2)` -/
+def dupVerts : List (Nat × Option DPt) := sqVerts ++ [(4, ipt 2 2)]
+
+/-- three cells, the first two with the same three vertex ids; the third touches them only in
+vertex `2`.  Every edge is shared by at most two cells, so `assignNeighbors` does not reject. -/
+def dupCellDoc : Doc :=
+  { D := 2, verts := dupVerts, cells := [0, 1, 2],
+    table := [(0, [0, 1, 2]), (1, [0, 1, 2]), (2, [2, 3, 4])] }
+
+/-- **Fix F7c.**  Two cells with the same vertex set: rejected -/
+theorem decode_rejects_duplicate_cell : decode dupCellDoc = none := by decide
+
+/-- … and for that reason only: every listed vertex is stored, no facet is over-shared
+(`assignNeighbors` succeeds on the raw cells), the rebuilt complex passes Level 1 — only the
+duplicate-cell test fails -/
+theorem dupCellDoc_fails_only_noDupCells :
+    tableRows dupCellDoc = some dupCellDoc.table ∧
+    rowsKnown dupCellDoc dupCellDoc.table = true ∧
+    (assignNeighbors (rawCx dupCellDoc.D dupCellDoc.table)).isSome = true ∧
+    checkL1 (builtCx dupCellDoc dupCellDoc.table) = true ∧
+    noDupCells (builtCx dupCellDoc dupCellDoc.table) = false := by decide
+
+/-- the duplicate may also list the vertices in another slot order (the mirror-image cell) -/
+theorem decode_rejects_duplicate_cell_permuted :
+    decode { dupCellDoc with table := [(0, [0, 1, 2]), (1, [1, 0, 2]), (2, [2, 3, 4])] } = none := by
+  decide
+
+/-- the same document with the duplicate cell removed is accepted: the rejection above is due to
+the duplicate alone -/
+example :
+    (decode { dupCellDoc with cells := [0, 2], table := [(0, [0, 1, 2]), (2, [2, 3, 4])] }).isSome
+      = true := by decide
 
 /-- a vertex with a non-finite coordinate -/
 theorem decode_rejects_nonfinite_vertex :
